@@ -1141,15 +1141,17 @@ static int json_object_double_to_json_string_format(struct json_object *jso, str
 		{
 			/* last useful digit, always keep 1 zero */
 			p++;
-			for (q = p; *q; q++)
+			for (q = p; is_plain_digit(*q); q++)
 			{
 				if (*q != '0')
 					p = q;
 			}
-			/* drop trailing zeroes */
+			/* drop trailing zeroes of the fraction, keep what follows it (an exponent) */
 			if (*p != 0)
-				*(++p) = 0;
-			size = p - buf;
+				p++;
+			if (p != q)
+				memmove(p, q, strlen(q) + 1);
+			size = (int)strlen(buf);
 		}
 	}
 	// although unlikely, snprintf can fail
